@@ -10,7 +10,8 @@ LEVEL = ("Abstract interpretation (interval x monotonicity) of DualAverage::adva
          "statistic (R1); the stored log step and the value averaged into the adapted step have passed min(.., ln(max_step_size)) (R2); "
          "Adam's increment has the sign of the smoothed (accept - target) and the smoothing is monotone (R3); the early/late statistic "
          "lanes agree with the public stat names (R4); the doubling and halving arms of the initial search are mirror images and every "
-         "trial step is measured by a freshly initialised collector (R5/R6). Numeric identities (weighted average as a number, "
+         "trial step is measured by a freshly initialised collector (R5/R6); the acceptance collector adds exactly one sample per "
+         "leapfrog to each running mean on every path, so the statistic is never 0/0 after a leapfrog (R7). Numeric identities (weighted average as a number, "
          "bracketing, closed-loop acceptance) are not decided.")
 EXPLANATION = ("MONO abstract interpreter over the HIR of the advance() bodies with induction over struct fields; FLOW lanes over MIR; "
                "SIB mirror comparison of the search arms; dominance of register_init over each trial leapfrog.")
